@@ -39,17 +39,26 @@ META = {
                  'TaskControl checks) + table obligations regenerated from the imported doit + differential '
                  'correspondence against load_tasks/TaskControl/CLI + statement monitor on the real Task objects',
     'design_ref': '§5 C18, §4 M6',
-    'level_text': 'Machine-checked over the loader model for all namespaces of creators (dicts, generators, nested '
-                  'generators, Task objects, None/other): an accepted load has distinct names, every sub-task attached '
-                  'to its group in yield order, every referenced task name defined, distinct targets; every listed '
-                  'defect is rejected as invalid-task/invalid-dodo; no internal exception outside the characterised '
-                  'crash shapes (counterexample theorems, open findings).  The model is tied to doit on every run by '
-                  'diffing outcome class, task order and dependency fields against the real loader, TaskControl and CLI.',
-    'level_note': 'total/rejects/wellformed hold only in their *_partial form on the current tree: the open findings '
-                  '(crash on clean: 1, unhashable basename, tuple uptodate + getargs; a yielded group-attribute dict or '
-                  'Task object silently replaces an earlier task; command name accepted as basename; ==-coercions) are '
-                  'proved as counterexample theorems and replayed on the implementation.  The monitor is a Python '
-                  'predicate (statement on real Task objects); values are abstracted to top-level type with string items.',
+    'level_text': 'Machine-checked over the loader model for all namespaces of creators (dicts, generators nested to any '
+                  'depth, Task objects, None/other; any attribute values): an accepted load has pairwise distinct '
+                  'names, every task_dep/setup/calc_dep/getargs name defined, distinct targets (wellformed_partial, '
+                  'references_are_checked), tasks in definition order of a stable line sort (definition_order, '
+                  'creators_sorted_stably), every sub-task attached to a has_subtask group whose task_dep contains the '
+                  'sub-tasks in yield order (wellformed_groups_partial, hypothesis Tidy); every unknown field, value '
+                  'rejected by Task.valid_attr, missing actions/name, non-task result, command-named creator, duplicate '
+                  'name/target and dangling reference is rejected (accepted_results_valid, rejects_at_control, '
+                  'rejects_duplicate_in_generator); an internal exception arises only from three characterised dict '
+                  'shapes (total_partial, hypothesis Safe).  Task.valid_attr and the set of check_attr calls are '
+                  're-read from the imported doit and re-proved equal to the model on every run.  The model is tied to '
+                  'doit by diffing outcome class, task order and dependency fields against the real loader, '
+                  'TaskControl and the CLI (list, run).',
+    'level_note': 'total / wellformed (group clause) / rejects-wrong-type hold only as *_partial on the current tree; the '
+                  'missing parts are exactly the open findings, each proved as a counterexample theorem '
+                  '(total_counterexample, crash_*, wellformed_counterexample, rejects_wrong_type_counterexample, '
+                  'accepts_*) and replayed on the implementation (corpus/C18).  The monitor is a Python predicate over '
+                  'the real Task objects / exception / exit code + stderr.  Values are abstracted to their top-level '
+                  'type with string items; hand-marked Task objects (subtask_of set by the creator) are outside the '
+                  'group clause.  Hypotheses Safe/Tidy are evaluated by the driver on every case (distribution hyp:*).',
     'rule': 'creators (function / create_doit_tasks object / with basename attribute, permuted definition lines) '
             'returning dict | generator (nested up to depth 2) | Task | None | other; dicts from doit\'s attribute '
             'vocabulary, mostly valid, with at most a few seeded defects (wrong top-level type incl. True/False/0/1/1.0 '
@@ -342,7 +351,7 @@ def valid_dict(rng, names, extra=()):
 DEFECTS = ['wrong-type', 'wrong-type', 'wrong-type', 'unknown-field', 'missing-actions', 'name-in-return',
            'missing-name', 'dup-across', 'dup-in-gen', 'dup-sub', 'group-after-plain', 'group-after-sub', 'taskobj-dup',
            'dup-target', 'dangling', 'dangling', 'dangling', 'cmd-creator', 'cmd-basename', 'yield-other',
-           'result-other', 'eq-in-name', 'dup-subtask-taskobj', 'unhashable-basename', 'uptodate-tuple-getargs', 'nonstr-basename',
+           'result-other', 'eq-in-name', 'dup-subtask-taskobj', 'plain-after-group', 'unhashable-basename', 'uptodate-tuple-getargs', 'nonstr-basename',
            'dup-group-basename']
 
 
@@ -507,6 +516,9 @@ def seed_defect(rng, case, names, defect):
             else:
                 case['creators'].append({'name': 'q', 'line': rng.randint(1, 40), 'kind': 'func',
                                          'result': {'k': 'gen', 'items': [{'k': 'task', 't': ta}]}})
+    elif defect == 'plain-after-group' and gens:
+        g = rng.choice(gens)
+        g['result']['items'].append({'k': 'dict', 'd': [copy.deepcopy(ACTIONS), ['basename', ['str', g['name']]]]})
     elif defect == 'dup-target' and len(dicts) >= 1:
         for x in rng.sample(dicts, min(2, len(dicts))):
             set_attr(x[2], 'targets', ['list', ['t1'] if len(dicts) > 1 else ['t1', 't1']])
@@ -574,7 +586,19 @@ def gen_case(rng):
         tags.append(d)
     if rng.random() < 0.08:
         rng.choice(case['creators'])['name'] = rng.choice(ODD_NAMES)
+    sanitize(case)
     return case, tags
+
+
+def sanitize(case):
+    """Task objects handed over by creators are *given* (valid) objects: constructing Task('a=b', ...) would raise
+    inside the creator itself, which is outside the model"""
+    for c in case['creators']:
+        r = c['result']
+        tas = [r['t']] if r['k'] == 'task' else ([it['t'] for it in L.flat_items(r) if it['k'] == 'task']
+                                                 if r['k'] == 'gen' else [])
+        for ta in tas:
+            ta['name'] = ta['name'].replace('=', '_')
 
 
 def exhaustive_cases():
@@ -627,6 +651,21 @@ def exhaustive_cases():
                         out.append(({'creators': [copy.deepcopy(helper), copy.deepcopy(helper_y),
                                                   {'name': 'f', 'line': 5, 'kind': 'func', 'result': res}]},
                                     ['exhaustive:refs']))
+    # duplicate targets: inside one task, between a task and a sub-task, between two sub-tasks, group attrs / sub-task
+    T1 = ['targets', ['list', ['t1']]]
+    sub = lambda n, *extra: {'k': 'dict', 'd': [copy.deepcopy(ACTIONS), ['name', ['str', n]]] + [copy.deepcopy(e) for e in extra]}
+    target_shapes = [
+        [{'name': 'f', 'line': 5, 'kind': 'func', 'result': {'k': 'dict', 'd': [copy.deepcopy(ACTIONS), ['targets', ['tuple', ['t1', 't1']]]]}}],
+        [{'name': 'f', 'line': 5, 'kind': 'func', 'result': {'k': 'dict', 'd': [copy.deepcopy(ACTIONS), T1]}},
+         {'name': 'g', 'line': 7, 'kind': 'func', 'result': {'k': 'gen', 'items': [sub('s', T1)]}}],
+        [{'name': 'g', 'line': 7, 'kind': 'func', 'result': {'k': 'gen', 'items': [sub('s', T1), sub('t', T1)]}}],
+        [{'name': 'g', 'line': 7, 'kind': 'func', 'result': {'k': 'gen', 'items': [sub('s', ['targets', ['list', ['t2', 't1', 't2']]])]}}],
+        [{'name': 'g', 'line': 7, 'kind': 'func', 'result': {'k': 'gen', 'items': [{'k': 'dict', 'd': [['name', ['none']], T1]}, sub('s', T1)]}}],
+        [{'name': 'g', 'line': 7, 'kind': 'func', 'result': {'k': 'gen', 'items': [sub('s', T1)]}},
+         {'name': 'h', 'line': 9, 'kind': 'func', 'result': {'k': 'task', 't': {'name': 'h', 'task_dep': [], 'targets': ['t1']}}}],
+    ]
+    for shp in target_shapes:
+        out.append(({'creators': copy.deepcopy(shp)}, ['exhaustive:targets']))
     # pairs that interact inside Task.__init__
     for u in (['list', []], ['list', ['u']], ['tuple', []], ['tuple', ['u']]):
         for g in (['dict', []], ['dict', [['k', 'x']]], ['dict', [['k', None]]], ['dict', [['k', 'nope']]], ['bool', False]):
@@ -881,7 +920,7 @@ def search(ctx):
 
 def replay(ctx, data):
     w = data.get('witness') or {}
-    case = w.get('case')
+    case = w.get('case') or data.get('case')       # a replay file, or a corpus seed (corpus/C18/*.json)
     if case is None:
         print('nothing to replay (no failing input was found): %s' % data.get('note'))
         return False
